@@ -1257,7 +1257,20 @@ func init() {
 			return nil
 		}
 		g := &cacheGen{r: newCacheRng(c.seed), c: c}
+		// a shard normally takes well under a minute (quick) / two minutes (thorough).  Code under test that makes every
+		// history crawl (queries waiting on timeouts inside the resolver) would otherwise hold the shard until the area's
+		// time limit: stop generating after the budget and let the histories that did run be compared.
+		budget := 4 * time.Minute
+		if c.tier == "thorough" {
+			budget = 15 * time.Minute
+		}
+		start := time.Now()
 		for i := 0; i < c.n; i++ {
+			if time.Since(start) > budget {
+				c.Stat("stopped-early:histories-crawl")
+				c.notes["stopped_early"] = map[string]int64{"histories_run": int64(i), "of": int64(c.n)}
+				break
+			}
 			emit(g.history())
 		}
 		return nil
